@@ -1,14 +1,16 @@
 """C06 — call checking: arguments against parameter types, result type.
 
-proof   : Properties/C06.v over Call/Model.v (binding of concrete calls + per-parameter acceptance +
-          the C15 solver for the signature's type variable), instantiated on the atom fragment whose
+proof   : Properties/C06.v over Call/Model.v = the C05 binder (Binder/Bind.v: all parameter kinds, star
+          arguments) + per-parameter acceptance + bound generation through T / list[T] / dict[K, V] /
+          Callable[[T], U] + the C15 solver per type variable; instantiated on the atom fragment whose
           acceptance table is dumped from the implementation and whose runtime membership table is
           computed by CPython (Gen/CallObjs.v)
 tie     : correspondence of Call.Model.check_call with the real checker run on generated modules
-          (real defs: functions, methods, classmethods, staticmethods, dataclass constructors; literal
-          argument tuples): diagnostic codes per call, names of the reported parameters, inferred type
+          (real defs: functions, methods, classmethods, staticmethods, dataclass constructors; literal,
+          typed, list, dict, callback, *star and **star arguments): diagnostic codes per call, names of
+          the reported parameters, inferred type
 oracle  : CPython: inspect.signature(...).bind for the binding, isinstance for membership of every
-          argument in the declared type, and really executing the call for the result
+          literal argument in the declared type, and really executing the call for the result
 """
 from __future__ import annotations
 
@@ -17,8 +19,8 @@ import contextlib
 import inspect
 import io
 import json
+import os
 import random
-import textwrap
 from pathlib import Path
 
 import c06_universe as u6
@@ -28,9 +30,10 @@ from translate import solve as tr_solve
 
 PROP = "C06"
 CORPUS = Path(__file__).resolve().parent / "corpus" / "C06.json"
-KINDS = {"pk": "PosOrKw", "ko": "KwOnly", "vp": "VarPos", "vk": "VarKw"}
+KINDS = {"po": "PO", "pk": "POK", "vp": "VP", "ko": "KO", "vk": "VK"}
 FLAVORS = ["function", "function", "function", "method", "classmethod", "staticmethod", "dataclass"]
 A = uni.ATOM_NAMES.index
+NOBJ = len(u6.OBJ_NAMES)
 
 
 def gen_files():
@@ -39,133 +42,222 @@ def gen_files():
 
 # ---------------------------------------------------------------------------
 # generator
+#
+# annotation  := None | "any" | [atoms] | {"v": k} | {"list": k} | {"dict": [k, j]} | {"fun": [k, r]}   r := None | [atoms] | {"v": j}
+# argument    := {"o": object index} | {"t": [atoms]} | {"list": [atoms]} | {"dict": [[atoms], [atoms]]} | {"fun": name}
+# call        := {"pos": [argument], "kw": [[name, argument]], "star": None | [atoms], "starkw": None | [atoms]}
 
 TYPE_POOL = [(A("int"),), (A("str"),), (A("float"),), (A("bool"),), (A("object"),), (A("clsA"),), (A("clsB"),), (A("clsC"),),
              (A("int"), A("str")), (A("litNone"), A("int")), (A("lit1"),), (A("lita"), A("lit1")), (A("litTrue"),),
              (A("clsA"), A("litNone")), (A("str"), A("clsC")), "any", (A("list_int"),)]
-OBJ = u6.OBJ_NAMES.index
+UNBOUNDED = ["T0", "U0", "W0"]
 
 
-def objs_for(rng, ann, decl):
-    """an argument object, usually (75%) a member of the annotation"""
-    n = len(u6.OBJ_NAMES)
+def is_tv_ann(a):
+    return isinstance(a, dict)
+
+
+def decl_sval(name):
+    d = u6.DECLS[name][1]
+    return "any" if d[0] == "unbounded" else (d[1] if d[0] == "bounded" else tuple(x[0] for x in d[1]))
+
+
+def literal_for(rng, sv):
+    """a literal object index, usually (75%) a member of sv"""
     if rng.random() < 0.75:
-        if ann == "T":
-            d = u6.DECLS[decl][1]
-            sv = "any" if d[0] == "unbounded" else (d[1] if d[0] == "bounded" else tuple(x[0] for x in d[1]))
-        else:
-            sv = ann if ann is not None else "any"
-        good = [i for i in range(n) if u6.member_sval(u6.obj_value(i), sv)]
+        good = [i for i in range(NOBJ) if u6.member_sval(u6.obj_value(i), sv)]
         if good:
             return rng.choice(good)
-    return rng.randrange(n)
+    return rng.randrange(NOBJ)
+
+
+def arg_for(rng, ann, sig):
+    """an argument that is shaped for the annotation"""
+    if isinstance(ann, dict):
+        if "v" in ann:
+            sv = decl_sval(sig["tvs"][ann["v"]])
+            if rng.random() < 0.2:
+                cands = [t for t in u6.TYPED if sv == "any" or rng.random() < 0.7]
+                if cands:
+                    return {"t": list(rng.choice(cands))}
+            return {"o": literal_for(rng, sv)}
+        if "list" in ann:
+            if rng.random() < 0.08:
+                return {"o": rng.randrange(NOBJ)}
+            return {"list": list(rng.choice(list(u6.ELEMS)))}
+        if "dict" in ann:
+            return {"dict": [list(rng.choice(list(u6.ELEMS))), list(rng.choice(list(u6.ELEMS)))]}
+        if "fun" in ann:
+            if rng.random() < 0.06:
+                return {"o": rng.randrange(NOBJ)}
+            return {"fun": rng.choice(list(u6.FUNS))}
+    sv = "any" if ann in (None, "any") else tuple(ann)
+    if rng.random() < 0.12:
+        good = [t for t in u6.TYPED if sv == "any" or all(any(uni.atom_table()[x][y] for x in sv) for y in t)]
+        if good and rng.random() < 0.8:
+            return {"t": list(rng.choice(good))}
+        return {"t": list(rng.choice(list(u6.TYPED)))}
+    return {"o": literal_for(rng, sv)}
 
 
 def gen_sig(rng, idx):
     flavor = rng.choice(FLAVORS)
-    tv = rng.choice(["T0", "T0", "TB", "TA", "TC", "TD"])
-    generic = flavor != "dataclass" and rng.random() < 0.45
-    params = []
-    npk = rng.choice([1, 1, 2, 2, 3])
-    seen_default = False
-    n_t = 0
+    generic = flavor != "dataclass" and rng.random() < 0.55
+    tvs = []
+    if generic:
+        first = rng.choice(["T0", "T0", "TB", "TA", "TC", "TD"])
+        tvs = [first]
+        if rng.random() < 0.5:
+            tvs.append(rng.choice([n for n in UNBOUNDED + ["TC", "TB"] if n != first]))
+    used = set()
 
-    def ann(allow_t=True):
-        nonlocal n_t
-        if generic and allow_t and rng.random() < 0.6:
-            n_t += 1
-            return "T"
+    def tv():
+        k = rng.randrange(len(tvs))
+        used.add(k)
+        return k
+
+    def ann(simple=False):
+        if generic and rng.random() < 0.6:
+            r = rng.random()
+            if simple or r < 0.6:
+                return {"v": tv()}
+            if r < 0.75:
+                return {"list": tv()}
+            if r < 0.83:
+                return {"dict": [tv(), tv()]}
+            rr = rng.random()
+            ret = None if rr < 0.2 else ({"v": tv()} if rr < 0.75 else list(rng.choice([(A("str"),), (A("int"),), (A("object"),)])))
+            return {"fun": [tv(), ret]}
         t = rng.choice(TYPE_POOL)
         return t if t == "any" else list(t)
 
-    for i in range(npk):
-        a = ann(allow_t=not seen_default)
+    def default_for(a):
+        if isinstance(a, dict):
+            if "v" not in a:
+                return None
+            return {"o": literal_for(rng, decl_sval(tvs[a["v"]])) if rng.random() < 0.7 else rng.randrange(NOBJ)}
+        if rng.random() < 0.3:
+            return {"o": rng.randrange(NOBJ)}
+        return {"o": literal_for(rng, "any" if a in (None, "any") else tuple(a))}
+
+    params = []
+    npos = rng.choice([1, 1, 2, 2, 3])
+    n_po = rng.choice([0, 0, 0, 1, 2]) if flavor != "dataclass" else 0
+    seen_default = False
+    for i in range(npos):
+        a = ann()
         d = None
-        if a != "T" and (seen_default or rng.random() < 0.25):
+        if (seen_default or rng.random() < 0.25) and not (isinstance(a, dict) and "v" not in a):
+            d = default_for(a)
+        if d is not None:
             seen_default = True
-            d = rng.randrange(len(u6.OBJ_NAMES)) if rng.random() < 0.3 else objs_for(rng, tuple(a) if a != "any" else "any", tv)
-        params.append({"name": f"p{i}", "kind": "pk", "default": d, "ann": a})
+        elif seen_default:
+            a = ann(simple=True)
+            d = default_for(a)
+        params.append({"name": f"p{i}", "kind": "po" if i < n_po else "pk", "default": d, "ann": a})
     if flavor != "dataclass":
         if rng.random() < 0.3:
-            params.append({"name": "va", "kind": "vp", "default": None, "ann": ann(allow_t=False)})  # *args: T is outside the model
+            params.append({"name": "va", "kind": "vp", "default": None, "ann": ann(simple=True)})
         for i in range(rng.choice([0, 0, 1, 2]) if (params[-1]["kind"] == "vp" or rng.random() < 0.4) else 0):
             a = ann()
-            d = None
-            if a != "T" and rng.random() < 0.4:
-                d = objs_for(rng, tuple(a) if a != "any" else "any", tv)
+            d = default_for(a) if rng.random() < 0.4 and not (isinstance(a, dict) and "v" not in a) else None
             params.append({"name": f"k{i}", "kind": "ko", "default": d, "ann": a})
         if rng.random() < 0.25:
-            params.append({"name": "vk", "kind": "vk", "default": None, "ann": ann(allow_t=False)})
+            params.append({"name": "vk", "kind": "vk", "default": None, "ann": ann(simple=True)})
     if flavor == "dataclass":
         ret = None
-    elif generic and any(p["ann"] == "T" and p["kind"] in ("pk", "ko") for p in params) and rng.random() < 0.8:
-        ret = "T"  # the body returns that parameter
     else:
-        # a return type with a known member object, so that the body can return it
-        ret = list(rng.choice([t for t in TYPE_POOL if t != "any" and t != (A("list_int"),)]))
-    if generic and n_t == 0 and ret != "T":
-        generic = False
-    return {"id": idx, "flavor": flavor, "tv": tv, "params": params, "ret": ret}
+        direct = [p for p in params if p["ann"] == {"v": 0} and p["kind"] in ("po", "pk", "ko") and p["default"] is None]
+        if generic and direct and rng.random() < 0.7:
+            ret = {"v": 0}  # the body returns that parameter
+        else:
+            ret = list(rng.choice([t for t in TYPE_POOL if t != "any" and t != (A("list_int"),)]))
+    return {"id": idx, "flavor": flavor, "tvs": tvs, "params": params, "ret": ret}
 
 
 def gen_call(rng, sig):
     ps = sig["params"]
-    pks = [p for p in ps if p["kind"] == "pk"]
+    posl = [p for p in ps if p["kind"] in ("po", "pk")]
     pos, kw = [], []
     r = rng.random()
-    n_pos = len(pks) if r < 0.55 else rng.randrange(0, len(pks) + 1)
+    n_pos = len(posl) if r < 0.55 else rng.randrange(0, len(posl) + 1)
     has_vp = any(p["kind"] == "vp" for p in ps)
-    for p in pks[:n_pos]:
-        pos.append(objs_for(rng, _a(p), sig["tv"]))
-    if has_vp and n_pos == len(pks):
+    for p in posl[:n_pos]:
+        pos.append(arg_for(rng, p["ann"], sig))
+    star = starkw = None
+    if has_vp and n_pos == len(posl):
         vp = next(p for p in ps if p["kind"] == "vp")
         for _ in range(rng.choice([0, 1, 2, 3])):
-            pos.append(objs_for(rng, _a(vp), sig["tv"]))
+            pos.append(arg_for(rng, vp["ann"], sig))
     elif rng.random() < 0.06:
-        pos.append(rng.randrange(len(u6.OBJ_NAMES)))  # too many positionals
-    for p in pks[n_pos:] + [p for p in ps if p["kind"] == "ko"]:
+        pos.append({"o": rng.randrange(NOBJ)})  # too many positionals
+    if rng.random() < 0.08:
+        star = list(rng.choice(list(u6.ELEMS)))
+    for p in posl[n_pos:] + [p for p in ps if p["kind"] == "ko"]:
         if p["default"] is None or rng.random() < 0.5:
-            if rng.random() < 0.93:
-                kw.append([p["name"], objs_for(rng, _a(p), sig["tv"])])
-    if rng.random() < 0.05 and pks[:n_pos]:
-        kw.append([pks[0]["name"], rng.randrange(len(u6.OBJ_NAMES))])  # multiple values
+            if rng.random() < (0.93 if star is None else 0.5):
+                kw.append([p["name"], arg_for(rng, p["ann"], sig)])
+    if rng.random() < 0.05 and posl[:n_pos]:
+        kw.append([posl[0]["name"], {"o": rng.randrange(NOBJ)}])  # multiple values / keyword for positional-only
     vk = next((p for p in ps if p["kind"] == "vk"), None)
     if vk is not None:
         for j in range(rng.choice([0, 1, 2])):
-            kw.append([f"x{j}", objs_for(rng, _a(vk), sig["tv"])])
+            kw.append([f"x{j}", arg_for(rng, vk["ann"], sig)])
     elif rng.random() < 0.05:
-        kw.append(["zz", 0])  # unexpected keyword
+        kw.append(["zz", {"o": 0}])  # unexpected keyword
+    if rng.random() < 0.06:
+        starkw = list(rng.choice(list(u6.ELEMS)))
     rng.shuffle(kw)
-    return {"pos": pos, "kw": kw}
-
-
-def _a(p):
-    a = p["ann"]
-    return a if a in ("T", "any", None) else tuple(a)
+    return {"pos": pos, "kw": kw, "star": star, "starkw": starkw}
 
 
 # ---------------------------------------------------------------------------
 # rendering as Python source
 
 
+def ann_src(a, sig):
+    if a is None:
+        return None
+    if a == "any":
+        return "Any"
+    if isinstance(a, dict):
+        tn = lambda k: u6.DECLS[sig["tvs"][k]][0]
+        if "v" in a:
+            return tn(a["v"])
+        if "list" in a:
+            return f"list[{tn(a['list'])}]"
+        if "dict" in a:
+            return f"dict[{tn(a['dict'][0])}, {tn(a['dict'][1])}]"
+        k, r = a["fun"]
+        rs = "Any" if r is None else ann_src(r, sig)
+        return f"Callable[[{tn(k)}], {rs}]"
+    return " | ".join(u6.ATOM_SRC[uni.ATOM_NAMES[i]] for i in a)
+
+
+def obj_src(i):
+    return u6.OBJ_SRC[u6.OBJ_NAMES[i]]
+
+
 def return_expr(sig):
     ret = sig["ret"]
-    if ret == "T":
-        return next(p["name"] for p in sig["params"] if p["ann"] == "T" and p["kind"] in ("pk", "ko"))
+    if isinstance(ret, dict):
+        return next(p["name"] for p in sig["params"] if p["ann"] == {"v": 0} and p["kind"] in ("po", "pk", "ko") and p["default"] is None)
     sv = tuple(ret)
-    for i, n in enumerate(u6.OBJ_NAMES):
+    for i in range(NOBJ):
         if u6.member_sval(u6.obj_value(i), sv):
-            return u6.OBJ_SRC[n]
+            return obj_src(i)
     raise AssertionError(ret)
 
 
 def render_sig(sig):
     i = sig["id"]
-    tvn = u6.DECLS[sig["tv"]][0]
     parts = []
     star_done = False
+    prev_kind = None
     for p in sig["params"]:
-        a = u6.annot_src(_a(p), tvn)
+        if prev_kind == "po" and p["kind"] != "po":
+            parts.append("/")
+        a = ann_src(p["ann"], sig)
         s = p["name"] + (f": {a}" if a is not None else "")
         if p["kind"] == "vp":
             s = "*" + s
@@ -176,16 +268,19 @@ def render_sig(sig):
             parts.append("*")
             star_done = True
         if p["default"] is not None:
-            s += " = " + u6.OBJ_SRC[u6.OBJ_NAMES[p["default"]]]
+            s += " = " + obj_src(p["default"]["o"])
         parts.append(s)
+        prev_kind = p["kind"]
+    if prev_kind == "po":
+        parts.append("/")
     fl = sig["flavor"]
     if fl == "dataclass":
         body = "\n".join(
-            f"    {p['name']}: {u6.annot_src(_a(p), tvn)}" + (f" = {u6.OBJ_SRC[u6.OBJ_NAMES[p['default']]]}" if p["default"] is not None else "")
+            f"    {p['name']}: {ann_src(p['ann'], sig)}" + (f" = {obj_src(p['default']['o'])}" if p["default"] is not None else "")
             for p in sig["params"]
         )
         return f"@dataclass\nclass D{i}:\n{body}\n", f"D{i}"
-    ra = u6.annot_src("T" if sig["ret"] == "T" else tuple(sig["ret"]), tvn)
+    ra = ann_src(sig["ret"], sig)
     rexpr = return_expr(sig)
     if fl == "function":
         return f"def f{i}({', '.join(parts)}) -> {ra}:\n    return {rexpr}\n", f"f{i}"
@@ -195,13 +290,43 @@ def render_sig(sig):
     return src, (f"K{i}().m" if fl == "method" else f"K{i}.m")
 
 
-def render_call(callee, call):
-    args = [u6.OBJ_SRC[u6.OBJ_NAMES[o]] for o in call["pos"]] + [f"{n}={u6.OBJ_SRC[u6.OBJ_NAMES[o]]}" for n, o in call["kw"]]
-    return f"{callee}({', '.join(args)})"
+def render_case(name, callee, call):
+    """The case function: typed / list / dict / star arguments are its own annotated parameters (with
+    runtime defaults, so that the case can be executed); literals and callbacks appear in the call."""
+    formals = []
+
+    def arg(a):
+        if "o" in a:
+            return obj_src(a["o"])
+        if "fun" in a:
+            return a["fun"]
+        v = f"a{len(formals)}"
+        if "t" in a:
+            t, d = u6.TYPED[tuple(a["t"])]
+            formals.append(f"{v}: {t} = {d}")
+        elif "list" in a:
+            t, d = u6.ELEMS[tuple(a["list"])]
+            formals.append(f"{v}: list[{t}] = [{d}]")
+        else:
+            (tk, dk), (tv_, dv) = u6.ELEMS[tuple(a["dict"][0])], u6.ELEMS[tuple(a["dict"][1])]
+            formals.append(f"{v}: dict[{tk}, {tv_}] = {{{dk}: {dv}}}")
+        return v
+
+    args = [arg(a) for a in call["pos"]]
+    if call.get("star") is not None:
+        t, d = u6.ELEMS[tuple(call["star"])]
+        formals.append(f"sa: list[{t}] = []")
+        args.append("*sa")
+    args += [f"{n}={arg(a)}" for n, a in call["kw"]]
+    if call.get("starkw") is not None:
+        t, d = u6.ELEMS[tuple(call["starkw"])]
+        formals.append(f"sk: dict[str, {t}] = {{}}")
+        args.append("**sk")
+    text = f"{callee}({', '.join(args)})"
+    return f"def {name}({', '.join(formals)}):\n    return {text}\n", text
 
 
 def render_module(group):
-    """group: list of (sig, [calls]).  Returns (source, {case function name: (sig, call)})."""
     out = [u6.PRELUDE]
     cases = {}
     for sig, calls in group:
@@ -209,8 +334,9 @@ def render_module(group):
         out.append(src)
         for j, c in enumerate(calls):
             name = f"case_{sig['id']}_{j}"
-            out.append(f"def {name}():\n    return {render_call(callee, c)}\n")
-            cases[name] = (sig, c, callee)
+            csrc, text = render_case(name, callee, c)
+            out.append(csrc)
+            cases[name] = (sig, c, text)
     return "\n".join(out), cases
 
 
@@ -219,7 +345,6 @@ def render_module(group):
 
 
 def run_module(src):
-    """-> {case name: {"codes": [...], "names": [...], "inferred": Value, "line": int}}, module"""
     from pyanalyze.analysis_lib import make_module
     from pyanalyze.name_check_visitor import ClassAttributeChecker, NameCheckVisitor
 
@@ -235,9 +360,8 @@ def run_module(src):
     by_line = {}
     for f in v.all_failures:
         by_line.setdefault(f.get("lineno"), []).append(f)
-    out = {}
-    other = []
-    case_lines = set()
+    out, other, case_lines = {}, [], set()
+    cname = lambda f: f["code"].name if hasattr(f.get("code"), "name") else str(f.get("code"))
     for n in tree.body:
         if isinstance(n, ast.FunctionDef) and n.name.startswith("case_"):
             callnode = n.body[0].value
@@ -245,22 +369,20 @@ def run_module(src):
             case_lines.add(callnode.lineno)
             codes, names = [], []
             for f in fs:
-                code = f["code"].name if hasattr(f.get("code"), "name") else str(f.get("code"))
-                codes.append(code)
+                codes.append(cname(f))
                 d = f.get("description", "")
-                if code == "incompatible_argument" and d.startswith("Incompatible argument type for "):
+                if cname(f) == "incompatible_argument" and d.startswith("Incompatible argument type for "):
                     names.append(d[len("Incompatible argument type for "):].split(":")[0])
-            out[n.name] = {"codes": codes, "names": names, "inferred": getattr(callnode, "inferred_value", None), "line": callnode.lineno,
+            out[n.name] = {"codes": codes, "names": names, "inferred": getattr(callnode, "inferred_value", None),
                            "descr": [f.get("description", "")[:160] for f in fs]}
     for ln, fs in by_line.items():
         if ln not in case_lines:
-            other += [(ln, f["code"].name if hasattr(f.get("code"), "name") else str(f.get("code")), f.get("description", "")[:120]) for f in fs]
+            other += [(ln, cname(f), f.get("description", "")[:120]) for f in fs]
     return out, mod, other
 
 
 def runtime_callable(mod, sig):
-    i = sig["id"]
-    fl = sig["flavor"]
+    i, fl = sig["id"], sig["flavor"]
     if fl == "function":
         return getattr(mod, f"f{i}")
     if fl == "dataclass":
@@ -269,43 +391,65 @@ def runtime_callable(mod, sig):
     return k().m if fl == "method" else k.m
 
 
+def literal_call(call):
+    return call.get("star") is None and call.get("starkw") is None and all("o" in a for a in call["pos"]) and all("o" in a for _, a in call["kw"])
+
+
 def oracle_case(mod, sig, call):
-    """CPython as the oracle: does the call bind; which arguments are outside the declared type of
-    the parameter they bind to; for the type variable, is there a declared choice that fits all."""
+    """CPython as the oracle, for calls whose arguments are all literals: does the call bind; which
+    arguments are outside the declared type of the parameter they bind to; for every type variable,
+    is there a declared choice that fits all the arguments passed for it.  Parameters annotated
+    list[T] / dict / Callable are not judged here (a literal passed for them is never a member)."""
     fn = runtime_callable(mod, sig)
-    pos = [u6.obj_value(o) for o in call["pos"]]
-    kw = {n: u6.obj_value(o) for n, o in call["kw"]}
+    pos = [u6.obj_value(a["o"]) for a in call["pos"]]
+    kw = {n: u6.obj_value(a["o"]) for n, a in call["kw"]}
     try:
         ba = inspect.signature(fn).bind(*pos, **kw)
     except TypeError as ex:
         return {"binds": False, "why": str(ex)[:80]}
-    bad, t_objs = [], []
+    bad = []
+    t_objs = {}
     by_name = {p["name"]: p for p in sig["params"]}
     for name, v in ba.arguments.items():
         p = by_name[name]
         vals = list(v) if p["kind"] == "vp" else list(v.values()) if p["kind"] == "vk" else [v]
-        a = _a(p)
-        if a is None:
+        a = p["ann"]
+        if a is None or not vals:
             continue
-        for x in vals:
-            if a == "T":
-                t_objs.append(x)
-                d = u6.DECLS[sig["tv"]][1]
-                decl_sv = "any" if d[0] == "unbounded" else (d[1] if d[0] == "bounded" else tuple(c[0] for c in d[1]))
-                if not u6.member_sval(x, decl_sv):
-                    bad.append(name)
-            elif not u6.member_sval(x, a):
+        if isinstance(a, dict):
+            if "v" not in a:
+                bad.append(name)  # a literal of the universe is never a list / dict / callable
+                continue
+            k = a["v"]
+            t_objs.setdefault(k, []).extend(vals)
+            sv = decl_sval(sig["tvs"][k])
+            if p["kind"] in ("vp", "vk"):
+                # the collected arguments are one lower bound: a constrained T needs ONE constraint for all of them
+                d = u6.DECLS[sig["tvs"][k]][1]
+                if d[0] == "constrained":
+                    if not any(all(u6.member_sval(x, c) for x in vals) for c in d[1]):
+                        bad.append(name)
+                    continue
+            if any(not u6.member_sval(x, sv) for x in vals):
                 bad.append(name)
-    d = u6.DECLS[sig["tv"]][1]
+        elif any(not u6.member_sval(x, "any" if a == "any" else tuple(a)) for x in vals):
+            bad.append(name)
+    # defaults annotated with a type variable contribute when they fit the declaration
+    for p in sig["params"]:
+        a = p["ann"]
+        if p["name"] not in ba.arguments and p["default"] is not None and isinstance(a, dict) and "v" in a:
+            x = u6.obj_value(p["default"]["o"])
+            if u6.member_sval(x, decl_sval(sig["tvs"][a["v"]])):
+                t_objs.setdefault(a["v"], []).append(x)
     solvable = True
-    if d[0] == "constrained" and t_objs:
-        solvable = any(all(u6.member_sval(x, c) for x in t_objs) for c in d[1])
+    for k, xs in t_objs.items():
+        d = u6.DECLS[sig["tvs"][k]][1]
+        if d[0] == "constrained" and not any(all(u6.member_sval(x, c) for x in xs) for c in d[1]):
+            solvable = False
     return {"binds": True, "bad": sorted(set(bad)), "solvable": solvable, "t_objs": t_objs}
 
 
 def value_contains(val, r, fallback_counter):
-    """member(result object, inferred Value) decided by CPython where the Value is a class / literal /
-    union / Any; other Values fall back to pyanalyze's own can_assign (counted)."""
     from pyanalyze.value import AnnotatedValue, AnyValue, KnownValue, MultiValuedValue, TypedValue
 
     if isinstance(val, AnnotatedValue):
@@ -326,12 +470,43 @@ def value_contains(val, r, fallback_counter):
 # model terms
 
 
+def sv(x):
+    return uni.coq_sval("any" if x == "any" else tuple(x))
+
+
+def coq_rann(r):
+    if r is None:
+        return "RNone"
+    if isinstance(r, dict):
+        return f"(RVar {r['v']})"
+    return f"(RTy {sv(r)})"
+
+
 def coq_ann(a):
     if a is None:
         return "AnnNone"
-    if a == "T":
-        return "AnnVar"
-    return f"(AnnTy {uni.coq_sval('any' if a == 'any' else tuple(a))})"
+    if isinstance(a, dict):
+        if "v" in a:
+            return f"(AnnVar {a['v']})"
+        if "list" in a:
+            return f"(AnnList {a['list']})"
+        if "dict" in a:
+            return f"(AnnDict {a['dict'][0]} {a['dict'][1]})"
+        return f"(AnnFun {a['fun'][0]} {coq_rann(a['fun'][1])})"
+    return f"(AnnTy {sv(a)})"
+
+
+def coq_aval(a):
+    if "o" in a:
+        return f"(AV (obj_val O_{u6.OBJ_NAMES[a['o']]}))"
+    if "t" in a:
+        return f"(AV {sv(a['t'])})"
+    if "list" in a:
+        return f"(AList {sv(a['list'])})"
+    if "dict" in a:
+        return f"(ADict {sv(a['dict'][0])} {sv(a['dict'][1])})"
+    p, r = u6.FUNS[a["fun"]]
+    return f"(AFun {sv(p)} {sv(r)})"
 
 
 def name_code(n, sig):
@@ -341,30 +516,35 @@ def name_code(n, sig):
     return 100 + (int(n[1:]) if n[1:].isdigit() else 99)
 
 
+def coq_decl(name):
+    d = u6.DECLS[name][1]
+    if d[0] == "unbounded":
+        return "Unbounded"
+    if d[0] == "bounded":
+        return f"(Bounded {uni.coq_sval(d[1])})"
+    return "(Constrained " + lib.clist([uni.coq_sval(c) for c in d[1]]) + ")"
+
+
 def coq_sig(sig):
     ps = []
     for p in sig["params"]:
-        ps.append(f"mk_param {lib.cn(name_code(p['name'], sig))} {KINDS[p['kind']]} {lib.cbool(p['default'] is not None)} {coq_ann(p['ann'])}")
-    d = u6.DECLS[sig["tv"]][1]
-    if d[0] == "unbounded":
-        dd = "Unbounded"
-    elif d[0] == "bounded":
-        dd = f"(Bounded {uni.coq_sval(d[1])})"
-    else:
-        dd = "(Constrained " + lib.clist([uni.coq_sval(c) for c in d[1]]) + ")"
-    ret = "AnnNone" if sig["ret"] is None else coq_ann(sig["ret"])
-    return f"(mk_sig {lib.clist(ps)} {dd} {ret})"
+        d = "None" if p["default"] is None else f"(Some {coq_aval(p['default'])})"
+        ps.append(f"mk_cparam (mkParam {lib.cn(name_code(p['name'], sig))} {KINDS[p['kind']]} {lib.cbool(p['default'] is not None)}) {coq_ann(p['ann'])} {d}")
+    return f"(mk_csig {lib.clist(ps)} {lib.clist([coq_decl(t) for t in sig['tvs']])} {coq_rann(sig['ret'])})"
 
 
 def coq_call(sig, call):
-    pos = lib.clist(["O_" + u6.OBJ_NAMES[o] for o in call["pos"]])
-    kw = lib.clist([f"({lib.cn(name_code(n, sig))}, O_{u6.OBJ_NAMES[o]})" for n, o in call["kw"]])
-    return f"(mk_call {pos} {kw})"
+    pos = lib.clist([coq_aval(a) for a in call["pos"]])
+    kw = lib.clist([f"({lib.cn(name_code(n, sig))}, {coq_aval(a)})" for n, a in call["kw"]])
+    star = "None" if call.get("star") is None else f"(Some (AV {sv(call['star'])}))"
+    starkw = "None" if call.get("starkw") is None else f"(Some (AV {sv(call['starkw'])}))"
+    return f"(mk_ccall {pos} {star} {kw} {starkw})"
 
 
 HEADER = (
     "From Coq Require Import List Bool Arith NArith. Import ListNotations.\n"
-    "Require Import PV.TypeVar.Base PV.TypeVar.Model PV.TypeVar.Simple PV.Call.Model PV.Gen.Solve PV.Gen.SolveAtoms PV.Gen.CallObjs."
+    "Require Import PV.TypeVar.Base PV.TypeVar.Model PV.TypeVar.Simple PV.Binder.Kind PV.Binder.Sig PV.Call.Model "
+    "PV.Gen.Solve PV.Gen.SolveAtoms PV.Gen.CallObjs."
 )
 
 
@@ -380,8 +560,15 @@ def decode_model(t, sig):
             kinds.add("resolve")
         else:
             kinds.add("arg")
-            args.add(names[d[1]])
+            args.add(names[d[1]] if d[1] < len(names) else f"?{d[1]}")
     return {"kinds": kinds, "args": args, "ret": uni.parse_sval(ret)}
+
+
+def same_type(a, b):
+    """union member order is not an observable of the property"""
+    if a == "any" or b == "any" or a is None or b is None:
+        return a == b
+    return sorted(a) == sorted(b)
 
 
 # ---------------------------------------------------------------------------
@@ -398,7 +585,7 @@ def run(tier: str, replay: str | None = None):
         broken_translation = str(ex)
     proof = lib.prove(PROP, gen, extra_targets=["theories/Gen/CallObjs.vo", "theories/Call/Model.vo"], thorough=(tier == "thorough")) if gen is not None else None
 
-    groups = []  # list of list of (sig, calls)
+    groups = []
     if replay:
         r = json.loads(Path(replay).read_text())
         c = r["input"]
@@ -407,7 +594,7 @@ def run(tier: str, replay: str | None = None):
         corpus = json.loads(CORPUS.read_text()) if CORPUS.exists() else []
         if corpus:
             groups.append([(c["sig"], [c["call"]]) for c in corpus])
-        n_mod = 60 if tier == "quick" else 700
+        n_mod = 60 if tier == "quick" else 600
         sid = 1000
         for _ in range(n_mod):
             g = []
@@ -420,16 +607,17 @@ def run(tier: str, replay: str | None = None):
     terms, meta = [], []
     impl = {}
     oracle_fail, harness_notes = [], []
-    hist = {"flavor": {}, "generic": 0, "calls": 0, "binds": 0, "diagnosed": 0, "accepted": 0, "codes": {}, "model_kinds": {},
-            "executed": 0, "result_checked": 0, "result_fallback_can_assign": 0, "inferred_out_of_fragment": 0, "stray_errors": 0}
+    hist = {"flavor": {}, "generic": 0, "two_typevars": 0, "calls": 0, "literal_calls_that_bind": 0, "diagnosed": 0, "accepted": 0, "codes": {},
+            "model_kinds": {}, "executed": 0, "result_checked": 0, "result_fallback_can_assign": 0, "inferred_out_of_fragment": 0, "stray_errors": 0,
+            "arg_forms": {"o": 0, "t": 0, "list": 0, "dict": 0, "fun": 0, "star": 0, "starkw": 0},
+            "param_kinds": {k: 0 for k in KINDS}, "ann_forms": {"none": 0, "type": 0, "v": 0, "list": 0, "dict": 0, "fun": 0}}
     fallback = [0]
     seen = set()
     for gi, g in enumerate(groups):
-        # corpus signatures may repeat an id: renumber inside the module
         for k, (s, _) in enumerate(g):
             s["id"] = gi * 100 + k
-        src, cases = render_module(g)
         try:
+            src, cases = render_module(g)
             res, mod, other = run_module(src)
         except Exception as ex:  # generated module does not import: harness problem, not a finding
             rep.harness_error(f"module {gi} failed: {ex!r}")
@@ -437,55 +625,67 @@ def run(tier: str, replay: str | None = None):
         hist["stray_errors"] += len(other)
         if other and len(harness_notes) < 5:
             harness_notes.append(other[0])
-        for name, (sig, call, callee) in cases.items():
-            key = json.dumps([sig["flavor"], sig["tv"], sig["params"], sig["ret"], call], sort_keys=True)
+        for s, _ in g:
+            for p in s["params"]:
+                hist["param_kinds"][p["kind"]] += 1
+                a = p["ann"]
+                hist["ann_forms"]["none" if a is None else (next(iter(a)) if isinstance(a, dict) else "type")] += 1
+        for name, (sig, call, text) in cases.items():
+            key = json.dumps([sig["flavor"], sig["tvs"], sig["params"], sig["ret"], call], sort_keys=True)
             r = res[name]
             hist["calls"] += 1
             hist["flavor"][sig["flavor"]] = hist["flavor"].get(sig["flavor"], 0) + 1
-            generic = any(p["ann"] == "T" for p in sig["params"])
+            generic = bool(sig["tvs"])
             hist["generic"] += int(generic)
+            hist["two_typevars"] += int(len(sig["tvs"]) > 1)
+            for a in call["pos"] + [x for _, x in call["kw"]]:
+                hist["arg_forms"][next(iter(a))] += 1
+            hist["arg_forms"]["star"] += int(call.get("star") is not None)
+            hist["arg_forms"]["starkw"] += int(call.get("starkw") is not None)
             for c in set(r["codes"]):
                 hist["codes"][c] = hist["codes"].get(c, 0) + 1
             diagnosed = bool(r["codes"])
             hist["diagnosed" if diagnosed else "accepted"] += 1
-            o = oracle_case(mod, sig, call)
-            case_in = {"sig": sig, "call": call, "source": render_call(callee, call)}
-            if o["binds"]:
-                hist["binds"] += 1
-                seen.add(key)
-                has_arg_err = "incompatible_argument" in r["codes"]
-                if not generic:
-                    if has_arg_err != bool(o["bad"]) or (diagnosed and not o["bad"]):
-                        oracle_fail.append((case_in, {"what": "diagnosed(call) <=> exists arg: not member(arg, declared(param)) fails",
-                                                      "impl_codes": r["codes"], "impl_descr": r["descr"], "cpython_nonmembers": o["bad"]}))
-                else:
-                    must = bool(o["bad"]) or not o["solvable"]
-                    if diagnosed != must:
-                        oracle_fail.append((case_in, {"what": "generic call: diagnosed <=> some argument outside its declared type or no declared choice of T fits all arguments, fails",
-                                                      "impl_codes": r["codes"], "impl_descr": r["descr"], "cpython_nonmembers": o["bad"], "solvable": o["solvable"]}))
-                if not diagnosed:
-                    # execute the call; the inferred type must contain the result
-                    try:
-                        result = getattr(mod, name)()
-                        hist["executed"] += 1
-                        inf = r["inferred"]
-                        if inf is not None:
-                            hist["result_checked"] += 1
-                            if not value_contains(inf, result, fallback):
-                                oracle_fail.append((case_in, {"what": "runtime result not in the inferred type", "result": repr(result), "inferred": str(inf)}))
-                            if generic and sig["ret"] == "T":
-                                for x in o["t_objs"]:
-                                    if not value_contains(inf, x, fallback):
-                                        oracle_fail.append((case_in, {"what": "accepted generic call: an argument is not in the inferred solution", "argument": repr(x), "solution": str(inf)}))
-                    except Exception as ex:
-                        oracle_fail.append((case_in, {"what": "accepted call raises when executed", "exception": repr(ex)[:200]}))
+            case_in = {"sig": sig, "call": call, "source": text, "def": render_sig(sig)[0].strip()[:300]}
+            seen.add(key)
+            o = None
+            if literal_call(call):
+                o = oracle_case(mod, sig, call)
+                if o["binds"]:
+                    hist["literal_calls_that_bind"] += 1
+                    has_arg_err = "incompatible_argument" in r["codes"]
+                    if not generic:
+                        if has_arg_err != bool(o["bad"]) or (diagnosed and not o["bad"]):
+                            oracle_fail.append((case_in, {"what": "diagnosed(call) <=> exists arg: not member(arg, declared(param)) fails",
+                                                          "impl_codes": r["codes"], "impl_descr": r["descr"], "cpython_nonmembers": o["bad"]}))
+                    else:
+                        must = bool(o["bad"]) or not o["solvable"]
+                        if diagnosed != must:
+                            oracle_fail.append((case_in, {"what": "generic call: diagnosed <=> some argument outside its declared type or no declared choice of a type variable fits all its arguments, fails",
+                                                          "impl_codes": r["codes"], "impl_descr": r["descr"], "cpython_nonmembers": o["bad"], "solvable": o["solvable"]}))
+            if not diagnosed and call.get("star") is None and call.get("starkw") is None:
+                # execute the call; the inferred type must contain the result
+                try:
+                    result = getattr(mod, name)()
+                    hist["executed"] += 1
+                    inf = r["inferred"]
+                    if inf is not None:
+                        hist["result_checked"] += 1
+                        if not value_contains(inf, result, fallback):
+                            oracle_fail.append((case_in, {"what": "runtime result not in the inferred type", "result": repr(result), "inferred": str(inf)}))
+                        if o is not None and o.get("binds") and isinstance(sig["ret"], dict):
+                            for x in o["t_objs"].get(sig["ret"]["v"], []):
+                                if not value_contains(inf, x, fallback):
+                                    oracle_fail.append((case_in, {"what": "accepted generic call: an argument is not in the inferred solution", "argument": repr(x), "solution": str(inf)}))
+                except Exception as ex:
+                    oracle_fail.append((case_in, {"what": "accepted call raises when executed", "exception": repr(ex)[:200]}))
             enc = None
             if r["inferred"] is not None and sig["flavor"] != "dataclass":
                 enc = uni.from_value(r["inferred"])
                 if enc is None:
                     hist["inferred_out_of_fragment"] += 1
-            impl[(gi, name)] = (sig, call, r, enc, o, case_in)
-            terms.append(f"check_call atom_ops rrs_limit obj_val {coq_sig(sig)} {coq_call(sig, call)}")
+            impl[(gi, name)] = (sig, call, r, enc, case_in)
+            terms.append(f"check_call atom_ops rrs_limit {coq_sig(sig)} {coq_call(sig, call)}")
             meta.append((gi, name))
     hist["result_fallback_can_assign"] = fallback[0]
 
@@ -497,7 +697,7 @@ def run(tier: str, replay: str | None = None):
         try:
             results = lib.coq_eval(HEADER, terms, name="c06", shard=200)
             for key, t in zip(meta, results):
-                sig, call, r, enc, o, case_in = impl[key]
+                sig, call, r, enc, case_in = impl[key]
                 m = decode_model(t, sig)
                 for k in m["kinds"]:
                     hist["model_kinds"][k] = hist["model_kinds"].get(k, 0) + 1
@@ -510,21 +710,18 @@ def run(tier: str, replay: str | None = None):
                     why = "diagnostic kinds differ"
                 elif not set(r["names"]) <= m["args"] or (m["args"] and not r["names"]):
                     why = "reported parameters differ"
-                elif not r["codes"] and sig["flavor"] != "dataclass" and enc != m["ret"]:
-                    # the model's inferred type is always inside the fragment; an implementation value
-                    # outside it (enc is None) is a difference too
+                elif not r["codes"] and sig["flavor"] != "dataclass" and not same_type(enc, m["ret"]):
                     why = "inferred type differs"
                 if why:
-                    corr.append((case_in, {"why": why, "impl": {"codes": r["codes"], "names": r["names"], "inferred": str(r["inferred"])},
+                    corr.append((case_in, {"why": why, "impl": {"codes": r["codes"], "names": r["names"], "inferred": str(r["inferred"]), "descr": r["descr"]},
                                            "model": {"kinds": sorted(m["kinds"]), "args": sorted(m["args"]), "ret": uni.show(m["ret"])}}))
         except RuntimeError as ex:
             _cleanup_cases("c06")
             rep.violation({"kind": "broken-correspondence", "correspondence": "Call.Model.check_call vs NameCheckVisitor on generated modules", "detail": str(ex)[-1500:]}, no_failing_input=True)
 
-    import os
     if os.environ.get("C06_DEBUG"):
-        for case_in, obs in corr[:40]:
-            print("MISMATCH", case_in["source"], "|", render_sig(case_in["sig"])[0].splitlines()[-2].strip(), "|", obs["why"], obs["impl"], obs["model"])
+        for case_in, obs in corr[:60]:
+            print("MISMATCH", case_in["source"], "|", case_in["def"].splitlines()[-2].strip() if "\n" in case_in["def"] else case_in["def"], "|", obs["why"], obs["impl"], obs["model"])
     found = False
     for case_in, obs in oracle_fail[:10]:
         found = True
@@ -541,14 +738,15 @@ def run(tier: str, replay: str | None = None):
         rep.violation({"kind": "broken-obligation", "theorem": "; ".join(proof.broken), "log": proof.log[-1500:]}, no_failing_input=True)
 
     samples = []
-    for key in list(impl)[:3]:
-        sig, call, r, enc, o, case_in = impl[key]
-        samples.append({"def": render_sig(sig)[0].strip()[:200], "call": case_in["source"], "codes": r["codes"], "inferred": str(r["inferred"])})
+    for key in list(impl)[:4]:
+        sig, call, r, enc, case_in = impl[key]
+        samples.append({"def": case_in["def"][:200], "call": case_in["source"], "codes": r["codes"], "inferred": str(r["inferred"])})
     hist["notes"] = [str(x) for x in harness_notes]
     rep.coverage.update(
         evaluations=hist["calls"],
         distinct_nontrivial=len(seen),
-        rule="a case = (signature, literal call); non-trivial = the call binds under CPython (inspect.signature(...).bind) — only those are judged by the property; distinct by (flavor, declaration, parameters, return, call)",
+        rule="a case = (signature, call); distinct by (flavor, type-variable declarations, parameters, return, call); every case is compared model vs implementation; "
+        "the CPython membership oracle judges the cases whose arguments are all literals and that bind under inspect.signature(...).bind (literal_calls_that_bind); every accepted concrete call is executed",
         samples=samples,
         traces_validated_against_impl=len(terms) - len(corr),
         input_distribution=hist,
@@ -558,20 +756,20 @@ def run(tier: str, replay: str | None = None):
     )
     rep.assumptions = [
         "acc_laws on the atom fragment (proved); membership table computed by CPython isinstance + int->float promotion",
-        "generated function bodies return a parameter annotated T or a constant of the declared return type",
+        "generated function bodies return a parameter annotated with the first type variable or a constant of the declared return type",
+        "a structured argument (list / dict / callback) is only passed for a parameter with the matching structured annotation",
     ]
     return rep.finish(
         proof,
         "coq_makefile + make theories/Properties/C06.vo; coqc theories/Properties/C06.v (Print Assumptions)" + ("; coqchk -o" if tier == "thorough" else ""),
         ["Coq 8.16.1 kernel", "translator harness/translate/solve.py", "atom/object table dumps harness/c15_universe.py, c06_universe.py",
-         "CPython (inspect.signature.bind, isinstance, executing the call) as oracle", "correspondence harness/c06.py"],
+         "CPython (inspect.signature.bind, isinstance, executing the call) as oracle", "correspondence harness/c06.py",
+         "the C05 binder model and its theorems (Binder/*.v, Proofs/Binder*.v)"],
     )
 
 
 def _cleanup_cases(name):
     """lib.coq_eval leaves its case files behind when an evaluation fails; remove this run's."""
-    import os
-
     d = lib.COQ / "cases"
     if d.is_dir():
         for f in list(d.glob(f"{name}_{os.getpid()}_*")) + list(d.glob(f".{name}_{os.getpid()}_*")):
